@@ -92,7 +92,8 @@ where
 {
     fn expand_message(msg: &[u8], dst: &[u8], len_in_bytes: usize) -> Vec<u8> {
         let b_in_bytes = <HashT as Digest>::OutputSize::to_usize();
-        let ell = (len_in_bytes + b_in_bytes - 1) / b_in_bytes;
+        // ceil(len_in_bytes / b_in_bytes); the rounding must not wrap for requests near usize::MAX
+        let ell = len_in_bytes / b_in_bytes + (len_in_bytes % b_in_bytes != 0) as usize;
         if ell > 255 {
             panic!("ell was too big in expand_message_xmd");
         }
